@@ -536,10 +536,14 @@ class Fortran90OperatorsRule(GenericRule):  # Coding standards 4.15
             for op in sorted({op.operator for op in expr_list}):
                 # find source line for operator
                 op_str = op if op != '!=' else '/='
-                line = [line for line in lines if op_str in strip_inline_comments(line.string)]
+                # The patterns match both spellings of the operator irrespective of letter case
+                line = [line for line in lines if cls._op_patterns[op].search(strip_inline_comments(line.string))]
                 if not line:
-                    line = [line for line in lines
-                            if op_str in strip_inline_comments(line.string.replace(cls._op_map[op_str], op_str))]
+                    # The source range found for the expression does not always span the entire expression
+                    line = [line for line in node.source.clone_lines()
+                            if cls._op_patterns[op].search(strip_inline_comments(line.string))]
+                if not line:
+                    continue
 
                 source_string = strip_inline_comments(line[0].string)
                 matches = cls._op_patterns[op].findall(source_string)
